@@ -21,6 +21,22 @@ open Sakura Sakura.Spec
 def hasRow (name : String) (tt : Nat) (t1 t2 : Int) : Bool :=
   Gen.sysFuncs.any (fun r => r.name == cp name && r.tt == tt && r.tag1 == t1 && r.tag2 == t2)
 
+/-- a command word without its spelling: upper-cased, without the `System.` prefix, without underscores -/
+def wordOf (n : List Nat) : List Nat :=
+  let u := n.map (fun c => if 97 ≤ c ∧ c ≤ 122 then c - 32 else c)
+  ((if [83, 89, 83, 84, 69, 77, 46].isPrefixOf u then u.drop 7 else u).filter (· ≠ 95))
+
+/-- all spellings of a command word (`PlayFrom` / `PLAY_FROM`, `Continue` / `CONTINUE`, `System.TimeBase` / `TIMEBASE` …) stand for the same
+    command: the same token type, argument kind and tags in the command table regenerated from the source -/
+theorem C15_spellings_agree :
+    Gen.sysFuncs.all (fun r => Gen.sysFuncs.all (fun r' =>
+      wordOf r.name != wordOf r'.name || (r.tt == r'.tt && r.argt == r'.argt && r.tag1 == r'.tag1 && r.tag2 == r'.tag2))) = true := by
+  decide +kernel
+
+-- non-vacuity: the table holds words with several spellings
+example : (Gen.sysFuncs.filter (fun r => wordOf r.name == wordOf (cp "PLAY_FROM"))).length = 2 ∧
+    (Gen.sysFuncs.filter (fun r => wordOf r.name == wordOf (cp "System.TimeBase"))).length ≥ 3 := by decide +kernel
+
 /-- every named controller command has the standard controller number -/
 theorem C15_cc_numbers : stdCc.all (fun p => hasRow p.1 Gen.tt_ControlChangeCommand p.2 0) = true := by
   decide +kernel
